@@ -36,6 +36,9 @@ func (g *synGen) value(d int) J {
 	case k == 3:
 		return eAcct(pick(r, synAccts))
 	case k == 4:
+		if r.Intn(4) == 0 { // spelled with leading zeros: still base ten
+			return J{"k": "num", "lex": pick(r, []string{"010", "007", "-010", "0100", "00", "019", "08"})}
+		}
 		return eNum(pick(r, []int{0, 1, -1, 42, -300, 1000000}))
 	case k == 5 && d > 0:
 		return eMon(g.value(d-1), g.value(d-1))
